@@ -28,17 +28,36 @@ func properties() map[string]Property {
 			{Harness: "H_C14_collinear", Tier: "quick", Merge: []string{"isCollinear"}, Sites: []string{"triSign1"},
 				Covers: []string{"C14.collinear.reached"},
 				Bounds: "3 points, 6 coordinates each symbolic in [-2^29, 2^29]; isCollinear/productsAreEqual/multiplyUInt64/triSign executed in merge mode (one path)"},
+			{Harness: "H_C14_cross", Tier: "quick", Covers: []string{"C14.cross.reached"},
+				Bounds: "CrossProduct on 3 fully symbolic points in [-2^29, 2^29]: sign and zero-ness equal those of the exact integer cross product"},
+			{Harness: "H_C14_pip", Args: []int64{3}, Tier: "quick", Covers: []string{"C14.pip.reached"}, TimeoutMs: 120000,
+				Bounds: "PointInPolygon: fully symbolic triangle (not on one horizontal line) and fully symbolic point, all in [-2^29, 2^29], against an exact on-boundary / crossing-parity oracle"},
+			{Harness: "H_C14_pip", Args: []int64{4}, Tier: "thorough", Covers: []string{"C14.pip.reached"}, TimeoutMs: 120000,
+				Bounds: "PointInPolygon: fully symbolic quadrilateral (self-intersecting included)"},
+			{Harness: "H_C14_area", Args: []int64{3}, Tier: "quick", Covers: []string{"C14.area.reached"}, Bounds: "Area64/IsPositive64/AreaPaths64 on n=3 fully symbolic points versus the exact shoelace sum (to float64 rounding)"},
+			{Harness: "H_C14_area", Args: []int64{4}, Tier: "quick", Covers: []string{"C14.area.reached"}, Bounds: "n=4"},
+			{Harness: "H_C14_area", Args: []int64{5}, Tier: "quick", Covers: []string{"C14.area.reached"}, Bounds: "n=5"},
+			{Harness: "H_C14_area", Args: []int64{6}, Tier: "thorough", Covers: []string{"C14.area.reached"}, Bounds: "n=6"},
+			{Harness: "H_C14_bounds", Args: []int64{3}, Tier: "quick", Covers: []string{"C14.bounds.reached"}, Bounds: "GetBounds64 on n=3 fully symbolic points: exact extremes"},
+			{Harness: "H_C14_bounds", Args: []int64{4}, Tier: "quick", Covers: []string{"C14.bounds.reached"}, Bounds: "n=4"},
+			{Harness: "H_C14_bounds", Args: []int64{5}, Tier: "thorough", Covers: []string{"C14.bounds.reached"}, Bounds: "n=5"},
 		}}
 
 	// ---- C01 ------------------------------------------------------------
 	var c01 []Job
 	for i, a := range ctfr() {
 		tier := "thorough"
-		if i == 1 || i == 4 || i == 10 || i == 15 { // Intersection/NonZero, Union/EvenOdd, Difference/Positive, Xor/Negative
+		if i == 1 || i == 10 || i == 15 { // Intersection/NonZero, Difference/Positive, Xor/Negative
 			tier = "quick"
 		}
 		c01 = append(c01, Job{Harness: "H_C01_R11", Args: a, Tier: tier, Covers: []string{"C01.R11.done"},
 			Bounds: "family R(1,1): one subject and one clip axis-aligned rectangle, 8 side coordinates symbolic in [-2^29, 2^29], both orientations each; probe point symbolic; clip type and fill rule concrete"})
+	}
+	c01 = append(c01, Job{Harness: "H_C01_R", Args: []int64{11, 2, 1}, Tier: "quick", Covers: []string{"C01.R.done"},
+		Bounds: "three subject rectangles, two abutting along a shared vertical line x = xm on which the third's left side also lies; the other 4 x-sides and all 6 y-sides symbolic in [-2^29, 2^29] with every y-relation free; Union, NonZero"})
+	for _, a := range [][]int64{{10, 2, 1}, {10, 4, 0}, {11, 4, 0}, {8, 1, 1}, {8, 2, 0}, {8, 3, 1}, {9, 1, 1}, {9, 3, 0}, {12, 2, 1}, {12, 4, 0}, {1, 2, 1}, {1, 4, 0}} {
+		c01 = append(c01, Job{Harness: "H_C01_R", Args: a, Tier: "thorough", Covers: []string{"C01.R.done"},
+			Bounds: "three-rectangle families (8: R(1,2) with the clips side by side inside the subject's x-range; 9: R(2,1) likewise; 10/11: abutting on a shared line; 12: R(1,2) with overlapping clips) and R(2,0) (1); args (family, clip type, fill rule)"})
 	}
 	ps["C01"] = Property{ID: "C01", Level: "model_checking",
 		Explain: "every feasible path of the real sweep (BooleanOpPaths64 and everything below it) on the stated input families, region asserted at a symbolic probe point against an exact winding-number oracle",
@@ -129,6 +148,10 @@ func properties() map[string]Property {
 	for _, fr := range []int64{0, 2, 3} {
 		c19 = append(c19, Job{Harness: "H_C19_R", Args: []int64{0, fr}, Tier: "thorough", Covers: []string{"C19.done"}, Bounds: rb(0)})
 	}
+	c19 = append(c19, Job{Harness: "H_C19_R", Args: []int64{14, 1}, Tier: "quick", Covers: []string{"C19.done"},
+		Bounds: "R(1,2): two clip rectangles side by side strictly inside the subject rectangle, all sides symbolic, the clips' y-relation free"})
+	c19 = append(c19, Job{Harness: "H_C19_R", Args: []int64{14, 0}, Tier: "thorough", Covers: []string{"C19.done"}, Bounds: "same, EvenOdd"})
+	c19 = append(c19, Job{Harness: "H_C19_R", Args: []int64{8, 1}, Tier: "thorough", Covers: []string{"C19.done"}, Bounds: "R(1,2) with the clips side by side inside the subject's x-range, every y-relation free"})
 	c19 = append(c19, Job{Harness: "H_C19_R", Args: []int64{1, 0}, Tier: "thorough", Covers: []string{"C19.done"}, Bounds: rb(1)})
 	ps["C19"] = Property{ID: "C19", Level: "model_checking",
 		Explain: "pointwise set identities between the solutions of the four clip types, decided per grid cell on every feasible path; area identities follow up to the band. Inputs with thousands of vertices are outside the bound",
@@ -139,6 +162,11 @@ func properties() map[string]Property {
 	var c17 []Job
 	for _, a := range [][]int64{{0, 1, 1, 1}, {0, 1, 1, 3}, {0, 1, 1, 5}, {0, 1, 1, 6}, {0, 1, 1, 9}, {0, 1, 0, 4}} {
 		c17 = append(c17, Job{Harness: "H_C17_R", Args: a, Tier: "quick", Covers: []string{"C17.done"}, Bounds: rb(a[0]) + "; args (family, clip type, fill rule, transformation 0..9)"})
+	}
+	c17 = append(c17, Job{Harness: "H_C17_R", Args: []int64{12, 3, 2, 5}, Tier: "quick", Covers: []string{"C17.done"},
+		Bounds: "R(1,2) with the two clip rectangles overlapping in x inside the subject's x-range, all sides symbolic, y-relations free; Difference under Positive versus all paths reversed under Negative"})
+	for _, a := range [][]int64{{12, 2, 2, 5}, {12, 1, 3, 5}, {12, 4, 1, 0}, {8, 2, 1, 6}} {
+		c17 = append(c17, Job{Harness: "H_C17_R", Args: a, Tier: "thorough", Covers: []string{"C17.done"}, Bounds: "three-rectangle families 12 / 8"})
 	}
 	c17 = append(c17, Job{Harness: "H_C17_twice", Args: []int64{0, 4, 0}, Tier: "quick", Covers: []string{"C17.twice.done"}, Bounds: rb(0) + "; the same call twice"})
 	for _, cf := range [][]int64{{2, 1}, {3, 2}, {4, 0}} {
@@ -190,6 +218,10 @@ func properties() map[string]Property {
 			Covers: []string{"C06.done"}, TimeoutMs: 60000,
 			Bounds: "clip rectangle x concave rectilinear 8-gon (rectangle with a notch), 11 symbolic coordinates, restricted to placements where the rectangle side cuts both arms of the notch (result touches that side in two stretches)"})
 	}
+	c06 = append(c06, Job{Harness: "H_C06_rect", Args: []int64{10}, Tier: "quick", Summaries: []string{"isCollinear"}, Sites: []string{"triSign1"}, NoLive: true,
+		Covers: []string{"C06.done"}, TimeoutMs: 60000, Bounds: "L-shaped hexagon whose solid block contains the clip rectangle with all four rectangle corners on the polygon's boundary"})
+	c06 = append(c06, Job{Harness: "H_C06_rect", Args: []int64{9}, Tier: "thorough", Summaries: []string{"isCollinear"}, Sites: []string{"triSign1"}, NoLive: true,
+		Covers: []string{"C06.done"}, TimeoutMs: 60000, Bounds: "clip rectangle x L-shaped hexagon, 6+4 symbolic coordinates, all mirror images and both orientations"})
 	ps["C06"] = Property{ID: "C06", Level: "model_checking",
 		Explain: "RectClipPaths64 (location state machine, intersections, corner insertion, edge tidying) executed on every feasible path of the family; winding number of the result compared with the input's at a symbolic probe inside the rectangle and with 0 outside",
 		Assumes: []string{floatAssume, heapAssume, solverAssume, "isCollinear summarised by its exact cross product (lemma job in the same check; triSign(1) site excluded)", "paths with sloped edges are outside these jobs"},
@@ -274,6 +306,9 @@ func properties() map[string]Property {
 		}
 		return rb(fam)
 	}
+	c04 = append(c04, Job{Harness: "H_C04_R", Args: []int64{13, 3, 1}, Tier: "quick", Covers: []string{"C04.done", "C04.node"},
+		Bounds: "subject rectangle minus a clip strip spanning its full height (shared y variables: the result is split by horizontal joins) and a second clip rectangle strictly inside the right-hand piece (a hole there); 10 symbolic coordinates"})
+	c04 = append(c04, Job{Harness: "H_C04_R", Args: []int64{13, 3, 0}, Tier: "thorough", Covers: []string{"C04.done"}, Bounds: "same, EvenOdd"})
 	for _, a := range [][]int64{{1, 2, 0}, {6, 2, 0}, {6, 2, 1}, {6, 4, 2}, {6, 2, 3}, {7, 2, 0}, {0, 3, 1}} {
 		c04 = append(c04, Job{Harness: "H_C04_R", Args: a, Tier: "quick", Covers: []string{"C04.done", "C04.node"},
 			Bounds: c04b(a[0]) + "; args (family, clip type, fill rule); tree polygons matched against the flat result, nesting and orientation decided per grid cell"})
@@ -299,6 +334,85 @@ func properties() map[string]Property {
 		Explain: "the open-path branches of the sweep executed on every feasible path: the closed solution is identical to the run without open paths, every open output vertex lies on the subject line, and a symbolic point of the subject line more than 2 units from every closed edge is covered iff the clip type's inside/outside condition holds under the exact winding number",
 		Assumes: []string{floatAssume, heapAssume, solverAssume, "sloped open paths and clip polygons other than one rectangle are outside these jobs"},
 		Jobs:    c09}
+
+	// ---- C08 ------------------------------------------------------------
+	var c08 []Job
+	c08b := "pattern: symbolic rectangle (either orientation); path: symbolic axis-parallel polyline (shape 0..4, open) or symbolic rectangle (shape 5, closed); coordinates in [-2^27, 2^27]; second arg 1 = MinkowskiDiff64; region compared at a fully symbolic probe with the closed-form expected region (segment (+) pattern boundary = rectangle minus hole)"
+	for _, a := range [][]int64{{0, 0}, {1, 1}, {2, 0}, {4, 0}} {
+		c08 = append(c08, Job{Harness: "H_C08_mink", Args: a, Tier: "quick", Covers: []string{"C08.done"}, TimeoutMs: 60000, Bounds: c08b})
+	}
+	for _, a := range [][]int64{{2, 1}, {3, 0}, {3, 1}, {0, 1}, {1, 0}, {5, 0}, {5, 1}} {
+		c08 = append(c08, Job{Harness: "H_C08_mink", Args: a, Tier: "thorough", Covers: []string{"C08.done"}, TimeoutMs: 60000, Bounds: c08b})
+	}
+	c08 = append(c08, Job{Harness: "H_C08_comm", Tier: "thorough", Covers: []string{"C08.comm.done"}, Bounds: "two symbolic rectangles: MinkowskiSum64(A,B,closed) and (B,A,closed) agree on every grid cell"})
+	ps["C08"] = Property{ID: "C08", Level: "model_checking",
+		Explain: "minkowskiInternal and the real Union executed on every feasible path; result compared at a symbolic probe with the exact swept region of a rectangle boundary along an axis-parallel path; result canonical",
+		Assumes: []string{floatAssume, heapAssume, solverAssume, "non-rectangular patterns and sloped paths are outside these jobs"},
+		Monitors: []string{"caller-slice-write"},
+		Jobs:    c08}
+
+	// ---- C18 ------------------------------------------------------------
+	c18 := []Job{
+		{Harness: "H_C12_hist", Args: []int64{0, 2, 1, 0}, Tier: "quick", Covers: []string{"C12.done"}, Bounds: rb(0) + "; boolean engine (two executions on one object and a fresh one)"},
+		{Harness: "H_C04_R", Args: []int64{6, 2, 0}, Tier: "quick", Covers: []string{"C04.done"}, Bounds: "PolyTree execution on three nested symbolic rectangles"},
+		{Harness: "H_C06_rect", Args: []int64{5}, Tier: "quick", Summaries: []string{"isCollinear"}, NoLive: true, Covers: []string{"C06.done"}, Bounds: "rectangle clipping of a symbolic notch polygon"},
+		{Harness: "H_C11_lines", Args: []int64{2}, Tier: "quick", Covers: []string{"C11.done"}, Bounds: "rectangle clipping of a symbolic L polyline"},
+		{Harness: "H_C09_open", Args: []int64{2, 1, 1, 0}, Tier: "quick", Covers: []string{"C09.done"}, Bounds: "open-path clipping"},
+		{Harness: "H_C08_mink", Args: []int64{0, 0}, Tier: "quick", Covers: []string{"C08.done"}, Bounds: "Minkowski sum of a symbolic rectangle and segment"},
+		{Harness: "H_C15_closed", Args: []int64{4}, Tier: "quick", Summaries: []string{"isCollinear"}, NoLive: true, Covers: []string{"C15.closed.done"}, Bounds: "TrimCollinear64, n=4"},
+		{Harness: "H_C16_simplify", Args: []int64{5, 1}, Tier: "quick", Summaries: []string{"PerpendicDistFromLineSqr64"}, NoLive: true, Covers: []string{"C16.simplify.done"}, Bounds: "SimplifyPath64, n=5"},
+		{Harness: "H_C14_pip", Args: []int64{3}, Tier: "thorough", Covers: []string{"C14.pip.reached"}, TimeoutMs: 120000, Bounds: "PointInPolygon"},
+		{Harness: "H_C19_R", Args: []int64{0, 1}, Tier: "thorough", Covers: []string{"C19.done"}, Bounds: rb(0) + "; all clip types"},
+	}
+	ps["C18"] = Property{ID: "C18", Level: "other",
+		Explain: "schedules are not made symbolic. What is decided, for every feasible path of the listed harnesses (all symbolic inputs within their bounds), is the sufficient condition for race freedom and schedule independence: after package initialisation no path stores through an address rooted in a package-level variable, and no path stores into a backing array reachable from a caller-supplied argument (the executor's heap monitor checks every Store instruction). Calls on distinct objects are then functions of their arguments only, so they commute and any interleaving returns the sequential results. Goroutine, channel and select instructions abort the path and are reported.",
+		Assumes: []string{heapAssume, solverAssume, "stubbed library calls (govalues/decimal, math, sort internals) keep no unsynchronised shared state", "the argument is a sufficient condition, not an exploration of interleavings"},
+		Monitors: []string{"global-write", "caller-slice-write", "nondeterminism-source"},
+		Jobs:    c18}
+
+	// ---- C13 ------------------------------------------------------------
+	c13 := []Job{
+		{Harness: "H_C13_kernels", Args: []int64{29}, Tier: "quick", Covers: []string{"C13.kernels.done"}, Bounds: "CrossProduct with one product syntactically zero, coordinates symbolic in [-2^29, 2^29]: sign exact (must hold)"},
+		{Harness: "H_C13_kernels", Args: []int64{61}, Tier: "quick", Excuses: []string{"C13.int64-products"}, KnownOnly: true, Bounds: "the same at the advertised magnitude 2^61: the 64-bit product of two coordinate differences wraps (known finding)"},
+		{Harness: "H_C13_bool", Args: []int64{0, 1, 1}, Tier: "quick", Covers: []string{"C13.bool.done"}, TimeoutMs: 20000,
+			Bounds: rb(0) + "; the whole input translated by a symbolic vector with |tx|,|ty| <= 2^52 - 2^29; the translated run must return the translated solution vertex for vertex"},
+		{Harness: "H_C13_bool", Args: []int64{0, 2, 0}, Tier: "thorough", Covers: []string{"C13.bool.done"}, TimeoutMs: 20000, Bounds: rb(0) + "; Union EvenOdd translated"},
+		{Harness: "H_C13_bool", Args: []int64{0, 4, 3}, Tier: "thorough", Covers: []string{"C13.bool.done"}, TimeoutMs: 20000, Bounds: rb(0) + "; Xor Negative translated"},
+	}
+	ps["C13"] = Property{ID: "C13", Level: "model_checking",
+		Explain: "translation: the same symbolic run on the input and on its translate by a symbolic vector up to 2^52 (differences are translation-free after affine normalisation, so any dependence on absolute coordinates shows up as a different decision or a different output term); scaling: the integer kernel decided at 2^29 and refuted at 2^61 by a solver witness replayed natively. Region-level scaling of whole operations to 2^61 is not decided",
+		Assumes: []string{floatAssume, heapAssume, solverAssume},
+		Jobs:    c13}
+
+	// ---- C07 ------------------------------------------------------------
+	var c07 []Job
+	c07b := "symbolic real rectangle(s) in [-1000, 1000] (reals: a superset of the float64 inputs), precision as given; the reference side is the 64-bit entry point on ScalePathsDToPaths64(input, 10^p), unscaled by the library's own ScalePaths64ToPathsD(., 1/10^p); decimal quantiser modelled by its contract (nearest integer, |q - v| <= 1/2, as an uninterpreted function of v)"
+	for _, a := range [][]int64{{1, 1, 2}, {2, 0, 2}, {1, 1, -1}, {3, 1, 8}} {
+		tier := "quick"
+		if a[2] == 8 {
+			tier = "thorough"
+		}
+		c07 = append(c07, Job{Harness: "H_C07_bool", Args: a, Tier: tier, Covers: []string{"C07.bool.done"}, Bounds: "BooleanOpPathsD(ct, fr, p): " + c07b})
+	}
+	c07 = append(c07, Job{Harness: "H_C07_p0", Tier: "quick", Excuses: []string{"C07.precision-zero"}, KnownOnly: true, Bounds: "precision 0 on a fixed pair of squares with fractional coordinates (known finding: 0 is treated as the default 2)"})
+	for _, a := range [][]int64{{0, 2}, {1, 2}} {
+		c07 = append(c07, Job{Harness: "H_C07_mink", Args: a, Tier: "quick", Covers: []string{"C07.mink.done"}, Bounds: "MinkowskiSumD/DiffD(diff, p): " + c07b})
+	}
+	for _, a := range [][]int64{{0, 2}, {1, 2}} {
+		c07 = append(c07, Job{Harness: "H_C07_rect", Args: a, Tier: "thorough", Excuses: []string{"C07.rect-trunc"}, TimeoutMs: 20000,
+			Bounds: "RectClipPathsD / RectClipLinesPathsD(lines, p): " + c07b + "; rectangle quantised to nearest like path coordinates"})
+	}
+	for which := int64(0); which <= 8; which++ {
+		for _, pr := range []int64{9, -9, 8, -8, 2} {
+			j := Job{Harness: "H_C07_precision", Args: []int64{which, pr}, Tier: "quick", Covers: []string{"C07.precision.done"},
+				Bounds: "entry point 'which' (0 BooleanOpPathsD, 1 BooleanOpPolyTreeD, 2 InflatePathsD, 3 RectClipPathsD, 4 RectClipLinesPathsD, 5 MinkowskiSumD, 6 MinkowskiDiffD, 7 TrimCollinearD, 8 NewClipperD) at the given precision on a fixed pair of squares: documented panic iff outside [-8, 8]"}
+			c07 = append(c07, j)
+		}
+	}
+	ps["C07"] = Property{ID: "C07", Level: "model_checking",
+		Explain: "plumbing equivalence: each floating-point entry point and its 64-bit counterpart on the quantised input are executed in one symbolic run (the engine forks identically on the shared quantised integers) and the outputs compared term for term; the precision-range panic is decided for every entry point",
+		Assumes: []string{floatAssume, heapAssume, solverAssume, "govalues/decimal is stubbed by its contract on symbolic values (real library on concrete ones); its own strconv-based numerics are outside the claim", "PolyTreeD, InflatePathsD and SimplifyPathD plumbing are covered only by the precision jobs"},
+		Jobs:    c07}
 
 	return ps
 }
